@@ -450,3 +450,17 @@ Example C17_bezier_whole_hyp_satisfiable :
     bfixups false ex_curve = Some (e :: r) /\ spans (e :: r) = Some cps /\
     Forall2 (fun c s => new_spline c = Some s) cps ss /\ Forall exact_span cps /\ curves ss = ss.
 Proof. exact endpoints_hyp_satisfiable. Qed.
+
+(* ---- inventory of mutable state (DESIGN.md 2.3).  The models above are functions of their arguments; they are
+   faithful only as long as the code keeps no state between calls beyond what they mention.  The package-level
+   variables and struct fields in the scope of C17 (and which of them are written outside construction, from which
+   entry points) are regenerated from the current source on every run (harness/stategen -> Generated/StateInv.v)
+   and contain no state beyond the expected, reviewed inventory of Sys/StateInvSpec.v, where every piece of state
+   that legitimately exists names the model component that accounts for it.  Breaks when a written package-level
+   variable, a struct field, or a write of a field outside its constructor is added in scope (coqc then prints the
+   differences); tolerates moved declarations, reordered fields, renamed locals, new helpers / constants / tables
+   nothing writes. *)
+From Sdfx Require Sys.StateInvSpec Sys.StateInvC17.
+Theorem C17_state_inventory : Sdfx.Sys.StateInvSpec.state_ok_C17 = true.
+Proof. exact Sdfx.Sys.StateInvC17.C17_state_inventory. Qed.
+Print Assumptions C17_state_inventory.
